@@ -506,7 +506,32 @@ pub fn cmd_merge(r: &mut Runner, t: &[&str]) -> String {
     let trace_path = format!("{}/trace-{}.txt", dir, tag);
     let _ = std::fs::remove_file(&trace_path);
     cmd.env("FST_VERIF_TRACE", &trace_path);
-    let out = cmd.output().unwrap();
+    // with a deadline: a deadlock of the worker protocol must not hang the check
+    cmd.stdout(std::process::Stdio::null()).stderr(std::process::Stdio::piped());
+    let mut child = cmd.spawn().unwrap();
+    let t0 = std::time::Instant::now();
+    let status = loop {
+        match child.try_wait().unwrap() {
+            Some(st) => break Some(st),
+            None => {
+                if t0.elapsed().as_secs() > 120 {
+                    let _ = child.kill();
+                    let _ = child.wait();
+                    break None;
+                }
+                std::thread::sleep(std::time::Duration::from_millis(2));
+            }
+        }
+    };
+    let mut stderr_text = String::new();
+    if let Some(mut e) = child.stderr.take() {
+        let _ = std::io::Read::read_to_string(&mut e, &mut stderr_text);
+    }
+    struct Out2 {
+        status: Option<std::process::ExitStatus>,
+        stderr: Vec<u8>,
+    }
+    let out = Out2 { status, stderr: stderr_text.into_bytes() };
     let trace = std::fs::read_to_string(&trace_path).unwrap_or_default();
     let _ = std::fs::remove_file(&trace_path);
     let line = t.join(" ");
@@ -514,8 +539,15 @@ pub fn cmd_merge(r: &mut Runner, t: &[&str]) -> String {
         let _ = std::fs::remove_file(p);
     }
     let nrows_traced = rows.len();
-    if !out.status.success() {
-        r.check(false, || format!("C19 fst exited with {:?}: {} :: {}", out.status.code(), String::from_utf8_lossy(&out.stderr), line));
+    let st = match out.status {
+        None => {
+            r.check(false, || format!("C19 fst did not terminate within 120 s (deadlock?) :: {}", line));
+            return "merge hung".into();
+        }
+        Some(st) => st,
+    };
+    if !st.success() {
+        r.check(false, || format!("C19 fst exited with {:?}: {} :: {}", st.code(), String::from_utf8_lossy(&out.stderr), line));
         return "merge failed".into();
     }
     let bytes = std::fs::read(&outp).unwrap();
